@@ -584,7 +584,8 @@ class BitString(base.SimpleAsn1Type):
     def asBinary(self):
         """Get |ASN.1| value as a text string of bits.
         """
-        binString = bin(self._value)[2:]
+        # bin(0) is '0b0': zero has no significant bits at all
+        binString = self._value and bin(self._value)[2:] or ''
         return '0' * (len(self._value) - len(binString)) + binString
 
     @classmethod
